@@ -177,6 +177,8 @@ func runC09(c *Ctx) error {
 		strings.Fields("& P +A ! P +B ! P +C R !"), strings.Fields("& +A ! P S +B B ! +C P !"),
 		// a handler is stopped and another one is added afterwards: its middlewares are its own
 		strings.Fields("+A +B A B ! -A +C C !"), strings.Fields("R +A +B +C B A C ! -B +D D ! -A R !"),
+		// the handler registered under the empty name stops: what the router forgets with it is that handler's own, not the router-level middlewares
+		strings.Fields("~ R +A +B A B R ! -A +C C !"), strings.Fields("~ R R +B +A A ! -A R +C +D C ! -B D +E !"),
 		// handlers WITHOUT a publisher whose outputs come from a middleware: the publisher decorators act on them like on any other
 		// (the innermost decorator takes care of them itself)
 		strings.Fields("% P +A P +B R P !"), strings.Fields("% +A P A ! P P +B B !"), strings.Fields("% R P P +A ! +B P S !"),
